@@ -936,14 +936,14 @@ class DocutilsRenderer(RendererProtocol):
             #     href_template = conversion
             # markdown-it encodes unsafe characters with percent-encoding
             # we want to get back the original, source input
-            uri = self.md.normalizeLinkText(uri)
+            decoded_uri = self.md.normalizeLinkText(uri)
             try:
-                _parsed = urlparse(uri)
+                _parsed = urlparse(decoded_uri)
             except ValueError:
                 # e.g. "Invalid IPv6 URL" for `scheme://[x`
                 _parsed = urlparse("")
             parsed = {
-                "uri": uri,
+                "uri": decoded_uri,
                 "scheme": _parsed.scheme,
                 "netloc": _parsed.netloc,
                 "path": _parsed.path,
